@@ -130,12 +130,13 @@ class SymEx:
         self.suppress = 0
         self.in_comp = 0
         self._gcache = {}
+        self._defs_in_frame = {}
         self.try_lookup = 0
         self.closures = {}
         self.dyn = {}
 
     # ------------------------------------------------------------------ entry
-    def run(self, fn, args=None, self_term=None, state=None, dyn=None):
+    def run(self, fn, args=None, self_term=None, state=None, dyn=None, closure_env=None):
         """Summarise `fn`.  args: {param: term}; missing params become free vars (defaults not applied).
         dyn: the class of the object `self` denotes when it is more specific than the class defining fn (an inherited method run on a subclass)."""
         st = state or State()
@@ -159,7 +160,7 @@ class SymEx:
         if fn.node.args.kwarg:
             kname = fn.node.args.kwarg.arg
             extra_kw = [(k, v) for k, v in (args or {}).items() if isinstance(k, str) and k not in ps and not k.startswith('*') and k != kname]
-            if args is not None and kname not in args and (extra_kw or getattr(self, '_bind_rest', False)):
+            if args is not None and kname not in args:
                 env[kname] = ('dict', tuple((('str', k), v) for k, v in extra_kw))
             else:
                 env[kname] = (args or {}).get(kname, ('var', kname))
@@ -168,12 +169,14 @@ class SymEx:
             extra = []
             while args is not None and ('*%d' % len(extra)) in args:
                 extra.append(args['*%d' % len(extra)])
-            if extra or (args is not None and getattr(self, '_bind_rest', False)):
+            if extra or args is not None:
                 env[vname] = ('tuple', tuple(extra))
             else:
                 env[vname] = ('var', vname)
         outer_env = st.env
-        if getattr(fn, 'parent', None) is not None and self.frames and self.frames[-1] is fn.parent:
+        if closure_env is not None:
+            env = dict({k: v for k, v in closure_env.items() if k not in env}, **env)
+        elif getattr(fn, 'parent', None) is not None and self.frames and self.frames[-1] is fn.parent:
             # a nested function sees the variables of the function that defines it
             env = dict({k: v for k, v in outer_env.items() if k not in env}, **env)
         st.env = env
@@ -182,8 +185,13 @@ class SymEx:
         try:
             res = self.block(fn.body(), st)
         finally:
+            made = self._defs_in_frame.pop(len(self.frames), [])
             self.dyn.pop(len(self.frames), None)
             self.frames.pop()
+        for key in made:
+            for s_, oc_ in res:
+                if s_.exc is None:
+                    self.closures[key][2] = dict(s_.env)      # closures see the final values of the enclosing function's variables
         out = []
         for s, oc in res:
             if s.exc is not None:
@@ -382,7 +390,16 @@ class SymEx:
         if isinstance(s, ast.FunctionDef):
             x = st.copy()
             g = getattr(self.fn, 'nested', {}).get(s.name)
-            x.env[s.name] = ('localfn', s.name, self.fn.qn)
+            cid = next(self.uid)
+            host = self.fn
+            while getattr(host, 'parent', None) is not None:
+                host = host.parent
+            lf = ('localfn', s.name, host.qn)
+            x.env[s.name] = lf
+            # the closure: the nested function with the variables of its defining scope (updated to their final values when that scope returns);
+            # keyed by the identity of the term object so that the term itself keeps its plain shape
+            self.closures[('def', id(lf))] = [lf, s, dict(x.env), self.fn]
+            self._defs_in_frame.setdefault(len(self.frames), []).append(('def', id(lf)))
             return [(x, None)]
         if isinstance(s, (ast.Import, ast.ImportFrom, ast.Global, ast.Nonlocal)):
             return [(st, None)]
@@ -879,7 +896,14 @@ class SymEx:
             x, k = r[0]
             x = x.copy()
             oldc = x.env[t.value.id]
-            x.env[t.value.id] = ('call', ('ext', 'SETITEM'), (oldc, k, v), ())
+            if oldc[0] == 'dict' and k[0] in ('str', 'num', 'const') and all(kk is not None and kk[0] in ('str', 'num', 'const') for kk, _ in oldc[1]):
+                # a literal dict updated under a literal key is still a literal dict
+                items = [(kk, (v if kk == k else vv)) for kk, vv in oldc[1]]
+                if not any(kk == k for kk, _ in oldc[1]):
+                    items.append((k, v))
+                x.env[t.value.id] = ('dict', tuple(items))
+            else:
+                x.env[t.value.id] = ('call', ('ext', 'SETITEM'), (oldc, k, v), ())
             if not silent:
                 x = x.ev(Ev('write', loc=('sub', ('var', t.value.id), k), value=v, how=how, site=self.site(node), fn=self.fn.qn, old=old,
                             delta=delta, local=True))
@@ -1556,64 +1580,65 @@ class SymEx:
             self.frames.pop()
         return bound
 
+    _TRANSPARENT_DECOS = ('property', 'staticmethod', 'classmethod', 'abstractmethod', 'setter', 'getter', 'wraps', 'lru_cache', 'cache', 'cached_property',
+                          'contextmanager', 'dataclass', 'total_ordering', 'overload', 'final', 'override')
+
     def _wrappers(self, callee):
-        """repo-defined decorators of callee (outermost first); None if some decorator is neither transparent nor a plain repo function"""
+        """decorator expressions of callee that wrap it (outermost first); None if one of them cannot be evaluated in the package"""
         out = []
         for d in callee.node.decorator_list:
             name = ast.unparse(d.func if isinstance(d, ast.Call) else d)
-            base = name.split('.')[-1]
-            if base in ('property', 'staticmethod', 'classmethod', 'abstractmethod', 'setter', 'getter', 'wraps', 'lru_cache', 'cache', 'cached_property',
-                        'contextmanager', 'dataclass', 'total_ordering', 'overload', 'final', 'override'):
+            if name.split('.')[-1] in self._TRANSPARENT_DECOS:
                 continue
-            t = self.M.resolve_name(callee.mod, name) if '.' not in name else None
+            head = d.func if isinstance(d, ast.Call) else d
             from .model import Func
-            if isinstance(t, Func) and not isinstance(d, ast.Call) and len(t.pos_params) == 1:
-                out.append(t)
-            else:
+            t = self.M.resolve_name(callee.mod, head.id) if isinstance(head, ast.Name) else None
+            if not isinstance(t, Func):
                 return None
+            out.append(d)
         return out
 
     def inline_decorated(self, callee, decs, bound, self_term, st, node):
-        """f = D(raw): run the decorator on the raw function, then call what it returned (usually its nested wrapper, a closure over raw)"""
-        if len(decs) != 1:
-            raise Undecided('stacked repo decorators on %s' % callee.qn)
-        D = decs[0]
+        """f = D(raw) (or F(args)(raw)): evaluate the decorator expression on the raw function, then call what it returned (a closure over raw)"""
         raw = ('fn', callee.qn)
         self._raw = getattr(self, '_raw', set()) | {callee.qn}
         try:
-            dps = self.run(D, {D.pos_params[0]: raw}, None, State())
-            dps = [p for p in dps if p.outcome == 'return']
-            if len(dps) != 1:
-                raise Undecided('decorator %s does not return one value' % D.qn)
-            v = dps[0].value
-            while v is not None and v[0] == 'call' and v[1] == ('ext', 'APPLY') and v[2] and v[2][0][0] == 'call' and v[2][0][1] == ('ext', 'functools.wraps') and len(v[2]) == 2:
-                v = v[2][1]              # functools.wraps(fn)(wrapper) is wrapper
-            if v == raw:
+            val = raw
+            modf = self.M.module_func(callee.mod)
+            for d in reversed(decs):
+                self.frames.append(modf)
+                try:
+                    r = self.ev(d, State())
+                    if len(r) != 1 or r[0][0].exc is not None or not _callable_value(r[0][1], self):
+                        raise Undecided('decorator %s of %s does not evaluate to a function of the package' % (ast.unparse(d)[:40], callee.qn))
+                    fake = ast.copy_location(ast.Call(func=d, args=[ast.Name(id='_raw_', ctx=ast.Load())], keywords=[]), callee.node)
+                    rr = self.call_value(fake, r[0][1], [val], [], State())
+                finally:
+                    self.frames.pop()
+                rr = [(s_, v_) for s_, v_ in rr if s_.exc is None]
+                if len(rr) != 1:
+                    raise Undecided('decorator %s of %s does not return one value' % (ast.unparse(d)[:40], callee.qn))
+                val = rr[0][1]
+            if val == raw:
                 return self.inline(callee, bound, self_term, st, node)
-            if not (v is not None and v[0] == 'localfn' and v[2] == D.qn and v[1] in D.nested):
-                raise Undecided('decorator %s returns %s' % (D.qn, fmt(v)[:60] if v else None))
-            g = D.nested[v[1]]
+            if not _callable_value(val, self):
+                raise Undecided('decorated %s is %s' % (callee.qn, fmt(val)[:60]))
             args = [self_term] if (self_term is not None and callee.cls is not None and not callee.is_static) else []
-            kwargs = [(k, t) for k, t in bound.items() if isinstance(k, str) and not k.startswith('*')]
             rest = []
             while ('*%d' % len(rest)) in bound:
                 rest.append(bound['*%d' % len(rest)])
-            saved_env = st.env
-            y = st.copy()
-            y.env = dict(dps[0].local_env)
-            self.frames.append(D)
-            self._bind_rest = True
-            try:
-                res = self.inline(g, self.bind(g, args + rest, kwargs, skip_self=False), None, y, node)
-            finally:
-                self._bind_rest = False
-                self.frames.pop()
-            out = []
-            for z, val in res:
-                z = z.copy()
-                z.env = dict(saved_env)
-                out.append((z, val))
-            return out
+            # positional parameters are handed over positionally (a wrapper may pick them out of *args), the rest by keyword
+            pos_names = [p_ for p_ in callee.pos_params if not (callee.cls is not None and not callee.is_static and p_ in ('self', 'cls') and p_ == callee.pos_params[0])]
+            pos = []
+            for p_ in pos_names:
+                if p_ in bound:
+                    pos.append(bound[p_])
+                else:
+                    break
+            used = set(pos_names[:len(pos)])
+            kwargs = [(k, t) for k, t in bound.items() if isinstance(k, str) and not k.startswith('*') and k not in used]
+            fake = ast.copy_location(ast.Call(func=ast.Name(id=callee.name, ctx=ast.Load()), args=[], keywords=[]), node if hasattr(node, 'lineno') else callee.node)
+            return self.call_value(fake, val, args + pos + rest, kwargs, st)
         finally:
             self._raw = self._raw - {callee.qn}
 
@@ -1728,10 +1753,9 @@ class SymEx:
         if isinstance(f, ast.Name) and f.id in st.env:
             fv = st.env[f.id]
             if fv[0] == 'localfn':
-                host = self.M.funcs.get(fv[2]) or self._find_nested_host(fv[2])
-                g = host.nested.get(fv[1]) if host is not None else None
-                if g is not None:
-                    return self.inline(g, self.bind(g, args, kwargs, skip_self=False), None, st, e)
+                r_ = self.call_localfn(e, fv, args, kwargs, st)
+                if r_ is not None:
+                    return r_
         # a function VALUE being called: a local holding a function/lambda/named-tuple type, or the result of a table lookup  TABLE[key](...)
         if (isinstance(f, ast.Name) and (f.id in st.env or self.M.global_value(fn.mod, f.id) is not None)) or isinstance(f, (ast.Subscript, ast.Call, ast.IfExp)):
             fvs = self.ev(f, st)
@@ -1747,6 +1771,22 @@ class SymEx:
                 return out
         if is_nt_attr(recv, f):
             return self.nt_method(e, recv, f.attr, args, kwargs, st)
+        if isinstance(f, ast.Attribute) and isinstance(f.value, ast.Name) and f.value.id in ('self', 'cls') and fn.cls is not None:
+            # NAME = functools.partialmethod(method, *bound) in the class body: self.NAME(x) is self.method(*bound, x)
+            holder = self.dyn.get(len(self.frames)) or fn.cls
+            pm = None
+            for k_ in holder.mro():
+                if f.attr in k_.class_attrs:
+                    pm = k_.class_attrs[f.attr]
+                    break
+            if isinstance(pm, ast.Call) and ast.unparse(pm.func).split('.')[-1] == 'partialmethod' and pm.args and isinstance(pm.args[0], ast.Name) \
+                    and holder.lookup(pm.args[0].id) is not None:
+                node = ast.Call(func=ast.Attribute(value=f.value, attr=pm.args[0].id, ctx=ast.Load()), args=list(pm.args[1:]) + list(e.args),
+                                keywords=list(pm.keywords) + list(e.keywords))
+                for n_ in ast.walk(node):
+                    if not hasattr(n_, 'lineno'):
+                        ast.copy_location(n_, e)
+                return self.call(node, st)
         if isinstance(f, ast.Name) and ('@ast:' + f.id) in st.env and st.env.get(f.id, ZERO)[0] == 'attr':
             clo = self.closures.get(st.env['@ast:' + f.id][1])
             if clo is not None and clo[3] is self.fn:
@@ -1784,9 +1824,9 @@ class SymEx:
             c = self.M.cls(how[5:])
             init = targets[0] if targets else None
             bound = self.bind(init, args, kwargs) if init else {}
-            if c.name in self.value_classes or self.M.is_record_init(c):
+            if (c.name in self.value_classes and init is not None) or self.M.is_record_init(c):
                 return self.construct(c, bound, st, e)
-            rf = self.M.record_fields(c)
+            rf = self.M.record_fields(c, c.name in self.value_classes)
             if rf is not None and not any(a[0] == 'starred' for a in args):
                 # a dataclass / NamedTuple new to the tree: the object is its fields
                 names = [n for n, _ in rf]
@@ -1903,10 +1943,44 @@ class SymEx:
         fv = r[0][1] if len(r) == 1 else ('havoc', 'callee', site)
         return self.call_opaque(e, fv, args, kwargs, st, how)
 
+    def call_localfn(self, e, fv, args, kwargs, st):
+        host = self.M.funcs.get(fv[2]) or self._find_nested_host(fv[2])
+        g = host.nested.get(fv[1]) if host is not None else None
+        if g is None:
+            return None
+        clo = self.closures.get(('def', id(fv)))
+        if clo is not None and clo[0] is not fv:
+            clo = None
+        cenv = None
+        if clo is not None:
+            cenv = dict(clo[2])
+            if any(fr is clo[3] for fr in self.frames) and clo[3] is self.fn:
+                cenv.update({k: v for k, v in st.env.items() if k in cenv})      # still inside the defining scope: current values
+        if any(fr.qn == g.qn for fr in self.frames):
+            raise Undecided('recursion through %s' % g.qn)
+        bound = self.apply_defaults(g, self.bind(g, args, kwargs, skip_self=False), st)
+        saved_env = st.env
+        x = st.ev(Ev('enter', fn=g.qn, site=self.site(e), caller=self.fn.qn))
+        self._bind_rest_once = True
+        paths = self.run(g, bound, None, x, closure_env=cenv)
+        out = []
+        for p in paths:
+            s = p.state.copy()
+            s.env = dict(saved_env)
+            s.events = s.events + (Ev('exit', fn=g.qn, outcome=p.outcome),)
+            out.append((s, p.value if p.value is not None else NONE))
+        return out
+
     def call_value(self, e, fv, args, kwargs, st):
         """call of a first-class function value"""
         site = self.site(e)
         fn = self.fn
+        if fv[0] == 'localfn':
+            r_ = self.call_localfn(e, fv, args, kwargs, st)
+            if r_ is not None:
+                return r_
+        if fv[0] == 'call' and fv[1] == ('ext', 'functools.wraps') and len(args) == 1 and not kwargs:
+            return [(st, args[0])]          # functools.wraps(f)(w) is w
         if fv[0] == 'nt':
             tname, fields = fv[1], tuple(fv[2].split(','))
             vals = dict(zip(fields, args))
@@ -2073,6 +2147,8 @@ class SymEx:
             for z in args[0][1]:
                 d_[z[1][0]] = z[1][1]
             return [(st, ('dict', tuple(d_.items())))]
+        if fv == ('ext', 'functools.reduce') and len(args) == 3 and not kws and args[0] == ('ext', 'operator.add') and args[2] == ZERO:
+            return self.call_opaque(e, ('ext', 'SUM'), [args[1]], [], st, how)        # a left fold of + from 0 is sum()
         if fv == ('ext', 'DICT') and len(args) == 1 and not kws and args[0][0] == 'comp' and args[0][1] in ('gen', 'list') and \
                 args[0][2][0] == 'tuple' and len(args[0][2][1]) == 2:
             return [(st, ('comp', 'dict') + args[0][2:])]          # dict((k, v) for ...) is {k: v for ...}
@@ -2290,7 +2366,9 @@ def _as_nt(v):
 def _callable_value(fv, sx):
     if fv[0] == 'call' and fv[1] in (('ext', 'operator.attrgetter'), ('ext', 'operator.itemgetter'), ('ext', 'operator.methodcaller')):
         return True
-    if fv[0] == 'call' and fv[1] == ('ext', 'functools.partial') and fv[2]:
+    if fv[0] == 'call' and fv[1] in (('ext', 'functools.partial'), ('ext', 'functools.wraps')) and fv[2]:
+        return True
+    if fv[0] == 'localfn':
         return True
     return fv[0] in ('nt', 'lambda') or (fv[0] == 'fn' and fv[1] in sx.M.funcs)
 
